@@ -87,7 +87,7 @@ class Ctx:
         if "hir" not in f:
             self.violation("anchor/%s" % name, name, "no HIR body for `%s`" % name)
             raise Abort()
-        return f["hir"]
+        return self.prog.hir(name)
 
     def anchor_body(self, name):
         self.anchor_fn(name)
